@@ -9,10 +9,13 @@ sys.path.insert(0, os.path.join(VERIF, "driver"))
 import props  # noqa: E402
 
 ALL = ["C%02d" % i for i in range(1, 21)]
+# only checks listed in driver/ready.txt are claimed (others may be under construction)
+with open(os.path.join(VERIF, "driver", "ready.txt")) as _f:
+    READY = set(_f.read().split())
 checks = []
 for pid in ALL:
     P = props.PROPS.get(pid)
-    if not P or P.get("disabled"):
+    if not P or P.get("disabled") or pid not in READY:
         continue
     engines = sorted({r["engine"] for r in P["runs"]})
     checks.append({
@@ -33,7 +36,7 @@ for pid in ALL:
 na = []
 for pid in ALL:
     P = props.PROPS.get(pid)
-    if not P or P.get("disabled"):
+    if not P or P.get("disabled") or pid not in READY:
         na.append({"property_id": pid, "reason": (P or {}).get("na_reason", "check not built yet in this revision of /verif (planned, see DESIGN.md section 4); not claimed until it exists")})
 m = {
     "version": 1,
